@@ -11,8 +11,8 @@ from mc.result import Result
 PROPERTY = 'C16'
 LEVEL = 'exploration'
 CHUNK = 40
-RULE = ('suite hierarchies (flat with plain names / globs, one and two sub-suites, depth 2, directories with exactly.suite, sub/*.case) x every assignment of the 11 verdicts '
-        '(PASS, FAIL, XFAIL, XPASS, SKIPPED, HARD_ERROR, VALIDATION_ERROR, instruction SYNTAX_ERROR, act-phase SYNTAX_ERROR, INTERNAL_ERROR, FILE_ACCESS_ERROR) to <= 2 cases '
+RULE = ('suite hierarchies (flat with plain names / globs, one and two sub-suites, depth 2, directories with exactly.suite, sub/*.case, [suites] globs matching directories and suite files) x every assignment of the 12 verdicts '
+        '(PASS, FAIL, XFAIL, XPASS, SKIPPED, HARD_ERROR, VALIDATION_ERROR, instruction SYNTAX_ERROR, act-phase SYNTAX_ERROR, INTERNAL_ERROR, FILE_ACCESS_ERROR, case file that is not UTF-8) to <= 2 cases '
         '(3 cases on the flat hierarchy; thorough: 3 everywhere) x reporter {progress, junit}; plus invalid suites (listed twice in several ways, diamond, cycle, self reference, '
         'missing case / suite, syntax error, unknown section); non-trivial = at least one case is not PASS or the hierarchy has sub-suites or is invalid')
 ASSUMPTIONS = [
@@ -20,7 +20,8 @@ ASSUMPTIONS = [
     'case actions are virtual children whose start is the execution marker',
 ]
 
-VERDICTS = ('PASS', 'FAIL', 'XFAIL', 'XPASS', 'SKIPPED', 'HARD_ERROR', 'VALIDATION_ERROR', 'SYNTAX_ERROR', 'ACT_SYNTAX_ERROR', 'INTERNAL_ERROR', 'FILE_ACCESS_ERROR')
+VERDICTS = ('PASS', 'FAIL', 'XFAIL', 'XPASS', 'SKIPPED', 'HARD_ERROR', 'VALIDATION_ERROR', 'SYNTAX_ERROR', 'ACT_SYNTAX_ERROR', 'INTERNAL_ERROR', 'FILE_ACCESS_ERROR',
+            'UNDECODABLE')
 SUCCESS = ('PASS', 'SKIPPED', 'XFAIL')
 
 
@@ -48,11 +49,14 @@ def case_text(verdict, marker):
         return '[assert]\nstub main EXC\n[act]\n%s\n' % act
     if verdict == 'FILE_ACCESS_ERROR':
         return '[setup]\nincluding no-such-file.xly\n[act]\n%s\n' % act
+    if verdict == 'UNDECODABLE':
+        # a case file that cannot be read as text (not UTF-8): processing the case fails as a whole
+        return b'[act]\n% mark \xff\xfe\n'
     raise ValueError(verdict)
 
 
 RUNS_ACT = ('PASS', 'FAIL', 'XFAIL', 'XPASS', 'INTERNAL_ERROR')
-IDENT = {'ACT_SYNTAX_ERROR': 'SYNTAX_ERROR'}
+IDENT = {'ACT_SYNTAX_ERROR': 'SYNTAX_ERROR', 'UNDECODABLE': 'INTERNAL_ERROR'}
 
 # hierarchy: name -> (files builder).  A hierarchy is {suite file path: {'suites': [lines], 'cases': [lines]}} plus the case slots
 #   slots: ordered list of case paths in *expected processing order* grouped by suite: [(suite display name, [case paths])]
@@ -73,6 +77,15 @@ HIER = {
                 [('subdir/exactly.suite', ['subdir/c2.case']), ('exactly.suite', ['c1.case'])], 'd'),
     'sub-glob': ({'main.suite': (['subs/*.suite'], ['c0.case']), 'subs/b.suite': ([], ['cb.case']), 'subs/a.suite': ([], ['ca.case'])},
                  [('subs/a.suite', ['subs/ca.case']), ('subs/b.suite', ['subs/cb.case']), ('main.suite', ['c0.case'])], 'main.suite'),
+    # globs in [suites] that match DIRECTORIES (each stands for DIR/exactly.suite), alone and mixed with suite files
+    'sub-glob-dirs': ({'main.suite': (['sub*'], []), 'sub1/exactly.suite': ([], ['a.case']), 'sub2/exactly.suite': ([], ['b.case'])},
+                      [('sub1/exactly.suite', ['sub1/a.case']), ('sub2/exactly.suite', ['sub2/b.case']), ('main.suite', [])], 'main.suite'),
+    'sub-glob-nested-dirs': ({'main.suite': (['parts/s-*'], ['m.case']), 'parts/s-x/exactly.suite': ([], ['a.case'])},
+                             [('parts/s-x/exactly.suite', ['parts/s-x/a.case']), ('main.suite', ['m.case'])], 'main.suite'),
+    'sub-glob-dir-and-file': ({'main.suite': (['s?*'], []), 's1/exactly.suite': ([], ['a.case']), 's2.suite': ([], ['b.case'])},
+                              [('s1/exactly.suite', ['s1/a.case']), ('s2.suite', ['b.case']), ('main.suite', [])], 'main.suite'),
+    'sub-glob-dirs3': ({'main.suite': (['c/*/'], ['m.case']), 'c/x/exactly.suite': ([], ['a.case']), 'c/y/exactly.suite': ([], ['b.case'])},
+                       [('c/x/exactly.suite', ['c/x/a.case']), ('c/y/exactly.suite', ['c/y/b.case']), ('main.suite', ['m.case'])], 'main.suite'),
 }
 INVALID = {
     'sub-twice': {'main.suite': (['s.suite', 's.suite'], ['c.case']), 's.suite': ([], ['x.case'])},
@@ -156,7 +169,12 @@ def _run_one(res, case, w, seam, mp, creation):
         verdict_of[c] = VERDICTS[vi]
     # files are created in reverse order (and a decoy between them), so that directory order differs from the sorted order of glob matches
     for (s, c) in (reversed(flat) if creation == 'reverse' else flat):
-        w.write(base + c, case_text(verdict_of[c], c))
+        ct = case_text(verdict_of[c], c)
+        if isinstance(ct, bytes):
+            w.write(base + c, '')
+            (w.home / (base + c)).write_bytes(ct)
+        else:
+            w.write(base + c, ct)
         if 'glob' in h:
             w.write(base + os.path.dirname(c) + ('/' if os.path.dirname(c) else '') + 'zz-' + os.path.basename(c) + '.not-a-case', 'x')
     args = ['suite'] + (['--reporter', 'junit'] if rep == 'junit' else []) + [str(w.home / arg)]
